@@ -12,6 +12,7 @@ import (
 	stdjson "encoding/json"
 	"fmt"
 	"reflect"
+	"runtime"
 	"strings"
 	"sync"
 	"sync/atomic"
@@ -44,6 +45,10 @@ type Case struct {
 	Types  []TypeSpec `json:"types"`
 	Rounds [][][]Step `json:"rounds"` // [round][goroutine][steps]
 	Procs  int        `json:"procs,omitempty"`
+	// GC: one more goroutine forces garbage collections for the duration of each round. Values the
+	// library keeps only behind unsafe pointers / wrongly typed scratch memory are then collected while
+	// in use and a call no longer returns what it returns running alone.
+	GC bool `json:"gc,omitempty"`
 }
 
 var nonce atomic.Int64
@@ -336,8 +341,22 @@ func runScript(c Case, types []reflect.Type) ([]outcome, int) {
 				mu.Unlock()
 			}(g, steps)
 		}
+		var stopGC atomic.Bool
+		var gcDone sync.WaitGroup
+		if c.GC {
+			gcDone.Add(1)
+			go func() {
+				defer gcDone.Done()
+				start.Wait()
+				for !stopGC.Load() {
+					runtime.GC()
+				}
+			}()
+		}
 		start.Done()
 		done.Wait()
+		stopGC.Store(true)
+		gcDone.Wait()
 		for i := range types {
 			if c.Types[i].Fresh && !seenBefore[i] && firstUse[i].Load() >= 2 {
 				contended++
@@ -390,6 +409,7 @@ func genCase(rt *rapid.T) Case {
 		}
 		c.Types = append(c.Types, ts)
 	}
+	c.GC = rapid.IntRange(0, 2).Draw(rt, "gc") == 0
 	G := rapid.IntRange(4, 24).Draw(rt, "goroutines")
 	R := rapid.IntRange(1, 3).Draw(rt, "rounds")
 	for r := 0; r < R; r++ {
@@ -428,6 +448,9 @@ func TestConcurrentFirstUse(t *testing.T) {
 		}
 		evid.Eval(1)
 		evid.LabelN("calls", ncalls)
+		if c.GC {
+			evid.Label("forced-gc-during-rounds")
+		}
 		evid.LabelN("fresh-types-with-contended-first-use", contended)
 		if contended > 0 {
 			evid.NonTrivial(evid.HashS(fmt.Sprintf("%+v", c)))
@@ -451,6 +474,15 @@ func TestReplay(t *testing.T) {
 		}
 		var c Case
 		if err := stdjson.Unmarshal(raw, &c); err != nil || len(c.Rounds) == 0 {
+			var gcase GenCase
+			if err := stdjson.Unmarshal(raw, &gcase); err == nil && gcase.G > 0 {
+				evid.Eval(1)
+				for i := 0; i < 20; i++ {
+					if f := checkGenCase(gcase); f != nil {
+						evid.Violation(t, "Replay", gcase, f)
+					}
+				}
+			}
 			continue
 		}
 		evid.Eval(1)
@@ -463,4 +495,59 @@ func TestReplay(t *testing.T) {
 	}
 }
 
-func TestKnownFindings(t *testing.T) { evid.RunWitnesses(t, nil) }
+func TestKnownFindings(t *testing.T) {
+	evid.RunWitnesses(t, []evid.Class{{Name: "json-map-string-stringslice-scratch-hidden-from-gc", Witness: witnessStringSliceMapGC}})
+}
+
+// witnessStringSliceMapGC: goroutines decode one document into map[string][]string while another
+// forces garbage collections; every decoded element must be the text in the document.
+func witnessStringSliceMapGC() *evid.Failure {
+	var doc []byte
+	doc = append(doc, '{')
+	for j := 0; j < 30; j++ {
+		if j > 0 {
+			doc = append(doc, ',')
+		}
+		doc = append(doc, fmt.Sprintf(`"k%d":["key%d","x"]`, j, j)...)
+	}
+	doc = append(doc, '}')
+	var bad atomic.Pointer[string]
+	var stop atomic.Bool
+	var wg, gc sync.WaitGroup
+	gc.Add(1)
+	go func() {
+		defer gc.Done()
+		for !stop.Load() {
+			runtime.GC()
+		}
+	}()
+	for g := 0; g < 16; g++ {
+		wg.Add(1)
+		go func() {
+			defer wg.Done()
+			for i := 0; i < 400 && bad.Load() == nil; i++ {
+				var back map[string][]string
+				if err := segjson.Unmarshal(doc, &back); err != nil {
+					msg := err.Error()
+					bad.Store(&msg)
+					return
+				}
+				for j := 0; j < 30; j++ {
+					v := back[fmt.Sprint("k", j)]
+					if len(v) != 2 || v[0] != fmt.Sprint("key", j) || v[1] != "x" {
+						msg := fmt.Sprintf("k%d = %q", j, v)
+						bad.Store(&msg)
+						return
+					}
+				}
+			}
+		}()
+	}
+	wg.Wait()
+	stop.Store(true)
+	gc.Wait()
+	if m := bad.Load(); m != nil {
+		return &evid.Failure{Oracle: "Unmarshal into map[string][]string returns the document's strings (as it does running alone)", Observed: *m, Expected: `k<j> = ["key<j>" "x"]`, Class: "concurrent-result"}
+	}
+	return nil
+}
